@@ -445,7 +445,7 @@ theorem bdiv_bin_uiui_some (n k : ℕ) (hk : ODD_FACTORIAL_TABLE_LIMIT < k) (h2k
   have hpost := bdivLoop_spec n k alloc (by omega) h2k hn k
     { np := 1, nn := 1, i := n - k + 1, i2cnt := 0, j := ODD_FACTORIAL_TABLE_LIMIT + 1, jjj := ODD_FACTORIAL_TABLE_MAX,
       j2cnt := fac2cntTab (ODD_FACTORIAL_TABLE_LIMIT / 2 - 1), kmax := log_n_max k, numfac := 1, ok := true }
-    ⟨1, by simp only [Nat.one_mul, Nat.add_sub_cancel]; exact b1, by simp [Nat.ascFactorial], b2, b3, by simp, le_refl 1,
+    ⟨1, by simp only [Nat.one_mul, Nat.add_sub_cancel]; exact b1, by simp, b2, b3, by simp, le_refl 1,
       by simp [B_eq], by simp only [Nat.sub_self, Nat.add_zero]; rw [Nat.mod_eq_of_lt (by omega)], le_refl 1,
       by simp only; omega, by simp only; omega, hWk1, le_refl _⟩
   generalize bdivLoop k (log_n_max n) alloc k _ = r at hpost ⊢
@@ -467,5 +467,162 @@ theorem bdiv_bin_uiui_some (n k : ℕ) (hk : ODD_FACTORIAL_TABLE_LIMIT < k) (h2k
     exact Nat.eq_of_mul_eq_mul_right (by positivity) this
   · left
     simp [hok]
+
+/-! ## the scratch area is large enough (`ASSERT (nn < alloc)`), the loop terminates -/
+
+theorem bdivK_kn (k : ℕ) : ∀ fuel kp kn j j2 kmax, kn ≤ SOME_THRESHOLD → (bdivK k fuel kp kn j j2 kmax).2.1 ≤ SOME_THRESHOLD := by
+  intro fuel
+  induction fuel with
+  | zero => intro kp kn j j2 kmax h; exact h
+  | succ fuel ih =>
+    intro kp kn j j2 kmax h
+    unfold bdivK
+    by_cases hc : kmax ≠ 0 ∧ kn < SOME_THRESHOLD
+    · rw [if_pos hc]
+      apply ih
+      split <;> omega
+    · rw [if_neg hc]; exact h
+
+/-- limb count of the dividend: at most one more limb per chunk, and never more than one above the true size -/
+theorem bdivN_size (n a nmax : ℕ) (ha : 1 ≤ a) (hn : n < B) (h1 : 1 ≤ nmax) (h8 : nmax ≤ 8) (hfit : n ^ nmax < B) :
+    ∀ fuel numfac np nn i i2 c, numfac ≤ fuel → i = (a + c) % B → a + c + numfac ≤ n + 1 → B ^ nn ≤ np * B ^ 2 →
+      (bdivN nmax fuel numfac np nn i i2).2.1 ≤ nn + numfac ∧
+      B ^ (bdivN nmax fuel numfac np nn i i2).2.1 ≤ (bdivN nmax fuel numfac np nn i i2).1 * B ^ 2 := by
+  intro fuel
+  induction fuel with
+  | zero =>
+    intro numfac np nn i i2 c g1 _ _ g4
+    simp only [bdivN]; exact ⟨by omega, g4⟩
+  | succ fuel ih =>
+    intro numfac np nn i i2 c g1 g2 g3 g4
+    unfold bdivN
+    by_cases h0 : numfac = 0
+    · subst h0; simp only [if_true]; exact ⟨by omega, g4⟩
+    · simp only [h0, if_false, Nat.add_assoc i2]
+      have hw1 : 1 ≤ min nmax numfac := by simp only [Nat.le_min]; omega
+      have hwm : min nmax numfac ≤ nmax := Nat.min_le_left _ _
+      have hwf : min nmax numfac ≤ numfac := Nat.min_le_right _ _
+      generalize min nmax numfac = w at hw1 hwm hwf ⊢
+      have hi : i = a + c := by rw [g2, Nat.mod_eq_of_lt (by omega)]
+      have hf : (i + w - 1) ^ w < B :=
+        lt_of_le_of_lt (Nat.pow_le_pow_left (by omega) w) (pow_fit_le hfit hwm)
+      obtain ⟨_, c2, _⟩ := chunk_spec w i hw1 (by omega) (by omega) hf
+      generalize mulfunc w i >>> ctz (mulfunc w i) = o at c2 ⊢
+      generalize tcnt (w - 1) + ctz (mulfunc w i) = tw
+      have ho : 1 ≤ o := by omega
+      have hB2 : 0 < B ^ 2 := Nat.pow_pos B_pos
+      have hstep : B ^ (nn + (if np * o / B ^ nn ≠ 0 then 1 else 0)) ≤ np * o * B ^ 2 := by
+        by_cases h : np * o / B ^ nn ≠ 0
+        · rw [if_pos h]
+          have hge : B ^ nn ≤ np * o := by
+            by_contra hc
+            exact h (Nat.div_eq_of_lt (by omega))
+          calc B ^ (nn + 1) = B ^ nn * B := pow_succ _ _
+            _ ≤ B ^ nn * B ^ 2 := Nat.mul_le_mul_left _ (by rw [pow_two]; exact Nat.le_mul_of_pos_right B B_pos)
+            _ ≤ np * o * B ^ 2 := Nat.mul_le_mul_right _ hge
+        · rw [if_neg h, Nat.add_zero]
+          calc B ^ nn ≤ np * B ^ 2 := g4
+            _ ≤ np * o * B ^ 2 := Nat.mul_le_mul_right _ (Nat.le_mul_of_pos_right np ho)
+      have := ih (numfac - w) (np * o) (nn + (if np * o / B ^ nn ≠ 0 then 1 else 0)) ((i + w) % B) (i2 + tw) (c + w)
+        (by omega) (by rw [hi]; congr 1; omega) (by omega) hstep
+      refine ⟨le_trans this.1 ?_, this.2⟩
+      split <;> omega
+
+/-- the first chunk multiplies np = 1: no new limb -/
+theorem bdivN_size_first (n a nmax : ℕ) (ha : 1 ≤ a) (hn : n < B) (h1 : 1 ≤ nmax) (h8 : nmax ≤ 8) (hfit : n ^ nmax < B)
+    (fuel numfac i i2 c : ℕ) (g1 : numfac ≤ fuel) (g0 : 1 ≤ numfac) (g2 : i = (a + c) % B) (g3 : a + c + numfac ≤ n + 1) :
+    (bdivN nmax fuel numfac 1 1 i i2).2.1 ≤ numfac := by
+  obtain ⟨fuel, rfl⟩ : ∃ f, fuel = f + 1 := ⟨fuel - 1, by omega⟩
+  unfold bdivN
+  have h0 : numfac ≠ 0 := by omega
+  simp only [h0, if_false, Nat.add_assoc i2]
+  have hw1 : 1 ≤ min nmax numfac := by simp only [Nat.le_min]; omega
+  have hwm : min nmax numfac ≤ nmax := Nat.min_le_left _ _
+  have hwf : min nmax numfac ≤ numfac := Nat.min_le_right _ _
+  generalize min nmax numfac = w at hw1 hwm hwf ⊢
+  have hi : i = a + c := by rw [g2, Nat.mod_eq_of_lt (by omega)]
+  have hf : (i + w - 1) ^ w < B :=
+    lt_of_le_of_lt (Nat.pow_le_pow_left (by omega) w) (pow_fit_le hfit hwm)
+  obtain ⟨_, c2, c3⟩ := chunk_spec w i hw1 (by omega) (by omega) hf
+  generalize mulfunc w i >>> ctz (mulfunc w i) = o at c2 c3 ⊢
+  generalize tcnt (w - 1) + ctz (mulfunc w i) = tw
+  have hz : 1 * o / B ^ 1 = 0 := by rw [Nat.one_mul, pow_one]; exact Nat.div_eq_of_lt c3
+  rw [hz]
+  simp only [ne_eq, not_true_eq_false, if_false, Nat.add_zero]
+  have := (bdivN_size n a nmax ha hn h1 h8 hfit fuel (numfac - w) (1 * o) 1 ((i + w) % B) (i2 + tw) (c + w) (by omega)
+    (by rw [hi]; congr 1; omega) (by omega) (by
+      rw [pow_one, Nat.one_mul, pow_two]
+      calc B ≤ 1 * (B * B) := by rw [Nat.one_mul]; exact Nat.le_mul_of_pos_right B B_pos
+        _ ≤ o * (B * B) := Nat.mul_le_mul_right _ (by omega))).1
+  omega
+
+theorem quot_denorm {N D Q nn kn : ℕ} (h : N = D * Q) (hnn : 1 ≤ nn) (hN : N < B ^ nn) (hkn : 1 ≤ kn)
+    (hDlo : B ^ (kn - 1) ≤ D) (hDhi : D < B ^ kn)
+    (hden : B ^ nn ≤ N * B ^ 2) (hsz : kn < nn + (if topLimb N nn ≥ topLimb D kn then 1 else 0)) :
+    B ^ (nn + (if topLimb N nn ≥ topLimb D kn then 1 else 0) - kn) ≤ Q * B ^ 2 := by
+  have hBk : 0 < B ^ kn := Nat.pow_pos B_pos
+  have hcancel : ∀ e, B ^ e * B ^ kn ≤ Q * B ^ 2 * B ^ kn → B ^ e ≤ Q * B ^ 2 := fun e he => Nat.le_of_mul_le_mul_right he hBk
+  have hQD : Q * D ≤ Q * B ^ kn := Nat.mul_le_mul_left Q (le_of_lt hDhi)
+  by_cases hc : topLimb N nn ≥ topLimb D kn
+  · rw [if_pos hc] at hsz ⊢
+    -- top limb of N is at least that of D ≥ 1, so N ≥ B^(nn-1)
+    have htD : 1 ≤ topLimb D kn := by
+      unfold topLimb
+      have hlt : D / B ^ (kn - 1) < B := by
+        apply Nat.div_lt_of_lt_mul; rw [← pow_succ]; rwa [Nat.sub_add_cancel hkn]
+      rw [Nat.mod_eq_of_lt hlt]
+      exact Nat.div_pos hDlo (Nat.pow_pos B_pos)
+    have hNlo : B ^ (nn - 1) ≤ N := by
+      by_contra hlt
+      have : N / B ^ (nn - 1) = 0 := Nat.div_eq_of_lt (by omega)
+      have : topLimb N nn = 0 := by unfold topLimb; rw [this, Nat.zero_mod]
+      omega
+    apply hcancel
+    rw [← pow_add, show nn + 1 - kn + kn = nn - 1 + 2 by omega, pow_add]
+    calc B ^ (nn - 1) * B ^ 2 ≤ N * B ^ 2 := Nat.mul_le_mul_right _ hNlo
+      _ = Q * D * B ^ 2 := by rw [h]; ring
+      _ ≤ Q * B ^ kn * B ^ 2 := Nat.mul_le_mul_right _ hQD
+      _ = Q * B ^ 2 * B ^ kn := by ring
+  · rw [if_neg hc] at hsz ⊢
+    apply hcancel
+    rw [← pow_add, show nn + 0 - kn + kn = nn by omega]
+    calc B ^ nn ≤ N * B ^ 2 := hden
+      _ = Q * D * B ^ 2 := by rw [h]; ring
+      _ ≤ Q * B ^ kn * B ^ 2 := Nat.mul_le_mul_right _ hQD
+      _ = Q * B ^ 2 * B ^ kn := by ring
+
+/-- the exact quotient of the accumulated dividend by the accumulated divisor -/
+theorem quot_exists {O0 kp np' j2' i2' a c : ℕ} (hO0 : 0 < O0) (k1 : O0 * kp * 2 ^ j2' = c !)
+    (n2 : O0 * np' * 2 ^ i2' = a.ascFactorial c) (k2 : kp % 2 = 1) (n3 : np' % 2 = 1) :
+    ∃ Q, np' = kp * Q ∧ Q * 2 ^ i2' = 2 ^ j2' * (a + c - 1).choose c ∧ Q % 2 = 1 ∧ Q ≤ (a + c - 1).choose c := by
+  have hkp : 0 < kp := by omega
+  have hmain : np' * 2 ^ i2' = kp * (2 ^ j2' * (a + c - 1).choose c) := by
+    have e := Nat.ascFactorial_eq_factorial_mul_choose' a c
+    rw [← k1] at e
+    rw [e] at n2
+    have : O0 * (np' * 2 ^ i2') = O0 * (kp * (2 ^ j2' * (a + c - 1).choose c)) := by rw [← mul_assoc, n2]; ring
+    exact Nat.eq_of_mul_eq_mul_left hO0 this
+  have hcop : Nat.Coprime kp (2 ^ i2') := by
+    apply Nat.Coprime.pow_right
+    rw [Nat.coprime_comm, Nat.Prime.coprime_iff_not_dvd Nat.prime_two]
+    omega
+  obtain ⟨Q, hQ⟩ := hcop.dvd_of_dvd_mul_right ⟨_, hmain⟩
+  have hQC : Q * 2 ^ i2' = 2 ^ j2' * (a + c - 1).choose c := by
+    rw [hQ, mul_assoc] at hmain
+    exact Nat.eq_of_mul_eq_mul_left hkp hmain
+  have hQodd : Q % 2 = 1 := odd_of_mul_odd (hQ ▸ n3)
+  refine ⟨Q, hQ, hQC, hQodd, ?_⟩
+  have hcop2 : Nat.Coprime Q (2 ^ j2') := by
+    apply Nat.Coprime.pow_right
+    rw [Nat.coprime_comm, Nat.Prime.coprime_iff_not_dvd Nat.prime_two]
+    omega
+  have hd : Q ∣ (a + c - 1).choose c := hcop2.dvd_of_dvd_mul_left ⟨_, hQC.symm⟩
+  have hpos : 0 < (a + c - 1).choose c := by
+    rcases Nat.eq_zero_or_pos ((a + c - 1).choose c) with h0 | h0
+    · rw [h0, Nat.mul_zero] at hQC
+      have : 0 < Q * 2 ^ i2' := Nat.mul_pos (by omega) (by positivity)
+      omega
+    · exact h0
+  exact Nat.le_of_dvd hpos hd
 
 end Mpir.Numth
